@@ -43,6 +43,27 @@ def fresh_symbols(t, cache=None) -> frozenset:
     return frozenset(out)
 
 
+def const_names(terms) -> set:
+    """names of the 0-ary uninterpreted constants occurring in the given terms"""
+    out = set()
+    seen = set()
+    stack = list(terms)
+    while stack:
+        x = stack.pop()
+        i = x.get_id()
+        if i in seen:
+            continue
+        seen.add(i)
+        if z3.is_quantifier(x):
+            stack.append(x.body())
+        elif z3.is_app(x):
+            if x.num_args() == 0 and x.decl().kind() == z3.Z3_OP_UNINTERPRETED:
+                out.add(x.decl().name())
+            else:
+                stack.extend(x.children())
+    return out
+
+
 def relevance_slice(hyps, goal):
     """cone of influence: hypotheses connected to the goal through shared fresh symbols (dropping
     hypotheses is sound for proving; a `sat` on the slice is re-examined on the full set)"""
